@@ -22,7 +22,7 @@ ASSUMPTIONS = ["the pass-through installed as ciw.arrival_node.random returns th
 WALL = {"quick": 150, "thorough": 540}
 
 REN_ALLOWED = ["schedule", "capacity", "priorities", "reneging", "jockeying", "batching", "cc_after", "cc_waiting", "discipline",
-               "routing_objects", "self_loops", "zero_service", "inf", "system_capacity", "server_priority", "slotted"]
+               "routing_objects", "self_loops", "zero_service", "inf", "system_capacity", "server_priority", "slotted", "slot_capacitated", "slot_preempt"]
 BAULK_ALLOWED = ["capacity", "priorities", "baulking", "batching", "system_capacity", "routing_objects", "self_loops", "inf", "schedule",
                  "reneging", "zero_servers", "cc_after"]
 
@@ -72,7 +72,7 @@ def baulk_execute_factory(prof):
 def subchecks(tier):
     w = {"reneging": 1.0, "jockeying": 0.5, "schedule": 0.25, "capacity": 0.4, "priorities": 0.4, "batching": 0.3, "cc_after": 0.15,
          "cc_waiting": 0.15, "discipline": 0.3, "routing_objects": 0.5, "self_loops": 0.4, "zero_service": 0.3, "inf": 0.1,
-         "system_capacity": 0.1, "server_priority": 0.1, "slotted": 0.1, "sched_preempt": 0.0}
+         "system_capacity": 0.1, "server_priority": 0.1, "slotted": 0.2, "slot_capacitated": 0.7, "slot_preempt": 0.7, "sched_preempt": 0.0}
     ren = S.Profile(REN_ALLOWED, weights=w, required=("reneging",), numeric="mixed", max_nodes=3, max_classes=3,
                     plans=("max_time", "max_time", "max_customers"), horizon=(5.0, 14.0), budget=600, load="heavy",
                     excluded=())
